@@ -226,6 +226,32 @@ pub fn race(a: &Args) {
                     });
                 }
             }
+            "last_leave_join" => {
+                // a is a member of g0 only; one thread makes it leave g0 (its last relation) while another joins it to g1; then a exits:
+                // an exited actor must be in no group (the record the join wrote into must still be the one the exit clean-up finds)
+                let (g0, g1) = (groups[0].clone(), groups[1 % groups.len()].clone());
+                let a_id = aa.get_id();
+                pg::join_scoped(sc.clone(), g0.clone(), vec![aa.get_cell()]);
+                let bar = Arc::new(std::sync::Barrier::new(2));
+                let (sc2, g12, bar2, a2) = (sc.clone(), g1.clone(), bar.clone(), aa.get_cell());
+                let th = std::thread::spawn(move || {
+                    bar2.wait();
+                    pg::join_scoped(sc2, g12, vec![a2]);
+                });
+                bar.wait();
+                pg::leave_scoped(sc.clone(), g0.clone(), vec![aa.get_cell()]);
+                th.join().unwrap();
+                aa.stop(None);
+                rt.block_on(async {
+                    let _ = ah.await;
+                });
+                for g in [&g0, &g1] {
+                    if pg::get_scoped_members(&sc, g).iter().any(|c| c.get_id() == a_id) && bad.len() < 4 {
+                        bad.push(format!("iteration {} (last leave racing with a join elsewhere, then exit): the stopped actor is still a member of {}", it, g));
+                        pg::leave_scoped(sc.clone(), g.clone(), vec![aa.get_cell()]);
+                    }
+                }
+            }
             "leave_join" | "join_leave" => {
                 let lj = mode == "leave_join";
                 for g in &groups {
